@@ -125,4 +125,76 @@ theorem stat_spec {p : Name Id Hsh} (hs : execOk fs proc (.stat p) = some (fs', 
     | none => simp [hnm, hnd] at hs
     | some nd => simp [hnm, hnd] at hs; obtain ⟨rfl, rfl⟩ := hs; exact ⟨rfl, Or.inr ⟨i, nd, rfl, hnd, rfl⟩⟩
 
+theorem exec_okSize {p : Name Id Hsh} {L : Nat} (hs : exec fs proc (.stat p) fault = some (fs', .okSize L)) :
+    fs' = fs ∧ ∃ i nd, fs.names p = some i ∧ fs.inodes i = some nd ∧ L = nd.data.length := by
+  cases fault <;> simp only [exec] at hs
+  case none =>
+    obtain ⟨rfl, h⟩ := stat_spec hs
+    rcases h with ⟨_, h⟩ | ⟨i, nd, h1, h2, h3⟩
+    · cases h
+    · cases h3; exact ⟨rfl, i, nd, h1, h2, rfl⟩
+  case crashAfter =>
+    obtain ⟨rfl, h⟩ := stat_spec hs
+    rcases h with ⟨_, h⟩ | ⟨i, nd, h1, h2, h3⟩
+    · cases h
+    · cases h3; exact ⟨rfl, i, nd, h1, h2, rfl⟩
+  all_goals simp at hs
+
+theorem exec_okFd_ro {p : Name Id Hsh} {m : Mode} {fd : Nat} (hs : exec fs proc (.open p m false false) fault = some (fs', .okFd fd)) :
+    ∃ i nd, fs.names p = some i ∧ fs.inodes i = some nd ∧ fs'.fds fd = some ⟨i, 0, proc⟩ := by
+  have key : execOk fs proc (.open p m false false) = some (fs', .okFd fd) →
+      ∃ i nd, fs.names p = some i ∧ fs.inodes i = some nd ∧ fs'.fds fd = some ⟨i, 0, proc⟩ := by
+    intro h
+    simp only [execOk] at h
+    cases hnm : fs.names p with
+    | none => simp [hnm] at h
+    | some i =>
+      cases hnd : fs.inodes i with
+      | none => simp [hnm, hnd] at h
+      | some nd =>
+        simp [hnm, hnd, FS.newFd] at h
+        obtain ⟨rfl, rfl⟩ := h
+        exact ⟨i, nd, rfl, hnd, by simp⟩
+  cases fault <;> simp only [exec] at hs
+  case none => exact key hs
+  case crashAfter => exact key hs
+  all_goals simp at hs
+
+/-- a read at the descriptor's offset: either end of file (nothing left), or the next bytes. -/
+theorem read_spec {fd k : Nat} (hs : exec fs proc (.read fd k) fault = some (fs', r)) (hr : r ≠ .fail) :
+    ∃ o nd, fs.fds fd = some o ∧ fs.inodes o.ino = some nd ∧
+      ((r = .eof ∧ fs' = fs ∧ (nd.data.drop o.off).take k = []) ∨
+       (∃ bs, r = .okData bs ∧ bs ≠ [] ∧ bs = (nd.data.drop o.off).take k ∧
+          fs' = fs.setFd fd (some { o with off := o.off + bs.length }))) := by
+  have key : execOk fs proc (.read fd k) = some (fs', r) → ∃ o nd, fs.fds fd = some o ∧ fs.inodes o.ino = some nd ∧
+      ((r = .eof ∧ fs' = fs ∧ (nd.data.drop o.off).take k = []) ∨
+       (∃ bs, r = .okData bs ∧ bs ≠ [] ∧ bs = (nd.data.drop o.off).take k ∧
+          fs' = fs.setFd fd (some { o with off := o.off + bs.length }))) := by
+    intro h
+    simp only [execOk] at h
+    cases hfd : fs.fds fd with
+    | none => simp [hfd] at h
+    | some o =>
+      cases hino : fs.inodes o.ino with
+      | none => simp [hfd, hino] at h
+      | some nd =>
+        simp only [hfd, hino] at h
+        by_cases hb : (nd.data.drop o.off).take k = []
+        · simp [hb] at h; obtain ⟨rfl, rfl⟩ := h
+          exact ⟨o, nd, rfl, hino, Or.inl ⟨rfl, rfl, hb⟩⟩
+        · simp [hb] at h; obtain ⟨rfl, rfl⟩ := h
+          exact ⟨o, nd, rfl, hino, Or.inr ⟨_, rfl, hb, rfl, by simp⟩⟩
+  cases fault <;> simp only [exec] at hs
+  case none => exact key hs
+  case crashAfter => exact key hs
+  case fail => simp at hs; exact absurd hs.2.symm hr
+  all_goals simp at hs
+
+theorem take_nil_of_pos {α : Type} {l : List α} {k : Nat} (hk : 0 < k) (h : l.take k = []) : l = [] := by
+  cases l with
+  | nil => rfl
+  | cons a t => cases k with
+    | zero => omega
+    | succ m => simp at h
+
 end GIV.CachePut
